@@ -88,8 +88,8 @@ def removeKeys (ks : List K) (f : K → Option V) : K → Option V :=
 
 def step (S : Sys K V C B R T) (n : Node K V C R TX) : Step K B TX → Node K V C R TX
   | .addBlock b =>
-    let (cs, c', r) := S.apply n.read n.cache (n.height + 1) b
-    { n with mem := cs :: n.mem, cache := c', height := n.height + 1, last := r }
+    let res := S.apply n.read n.cache (n.height + 1) b
+    { n with mem := res.1 :: n.mem, cache := res.2.1, height := n.height + 1, last := res.2.2 }
   | .flush => flushNode n
   | .restart =>
     let m := flushNode n
